@@ -18,6 +18,9 @@ kf("C08", "C08-spirv-matrix-negate", "SPIR-V backend rejects unary minus on a ma
    ["C08|spirv|*|SPIR-V generation error: unary operator on non-numeric type: ir.MatrixType|F1/un/-/mat*",
     "C08|compile|default|SPIR-V generation error: SPIR-V generation error: unary operator on non-numeric type: ir.MatrixType|F1/un/-/mat*"])
 
+kf("C08", "C08-pointer-to-matrix-column-argument", "`f(&m[i])` with m a function/private matrix and f taking ptr<_, vecR<f32>> is rejected by the lowerer (\"argument type mismatch (expected ptr<...>, got unknown)\"); WGSL allows the address of a matrix column",
+   ["C08|lower|*|*function 'cal' argument #: type mismatch (expected ptr<...>, got unknown)|F4idx/ptrarg-*/*/mat*"])
+
 # ---------------------------------------------------------------- C01 (SPIR-V semantics)
 kf("C01", "C01-fmod", "f32 `%` is emitted as OpFMod (floored, sign of divisor); WGSL prescribes the truncated remainder (sign of dividend), e.g. -7.5 % 2.0 gives 0.5 instead of -1.5",
    ["C01|F1/bin/%/*f32*|*|mismatch"])
@@ -33,6 +36,9 @@ kf("C01", "C01-abs-unsigned", "abs(u32) is emitted as SAbs, so abs(0xFFFFFFFFu) 
    ["C01|F1/call/abs/*u32*|*|mismatch"])
 kf("C01", "C01-switch-all-break-unreachable", "a switch whose every clause ends in break (e.g. `switch x { case 0: { break; } default: { break; } }`) branches to a merge block terminated by OpUnreachable, which is then executed",
    ["C01|F2/*|*|trap:unreachable"])
+
+kf("C01", "C01-private-subobject-pointer-argument", "`f(&x[i])` with x a private array/matrix and f taking ptr<private, T>: the argument is spilled to a Function-class temporary (or an access chain of the wrong class is built), so OpFunctionCall/OpAccessChain pointer types disagree in storage class (invalid SPIR-V)",
+   ["C01|F4idx/ptrarg-*/private/*|*|malformed-output:OpFunctionCall*", "C01|F4idx/ptrarg-*/private/*|*|malformed-output:OpAccessChain*"])
 
 # ---------------------------------------------------------------- C03 (HLSL semantics)
 kf("C03", "C03-clz-ctz", "countLeadingZeros/countTrailingZeros are emitted as bare firstbithigh/firstbitlow (clz(1)=0, ctz(0)=0xFFFFFFFF instead of 32)",
@@ -212,13 +218,15 @@ kf("C15", "C15-spirv-no-zero-init-function-private", "function and private varia
    ["C15|spirv|*|F15zero/function/*|trap:poison", "C15|spirv|*|F15zero/private/*|trap:poison"])
 kf("C15", "C15-hlsl-restrict-not-applied-to-buffers", "with RestrictIndexing on, dynamic indices into storage-buffer and uniform access chains (array members, vector components, nested arrays, runtime arrays, atomics) are not clamped: an out-of-range index reads/writes a neighbouring member or beyond the object; only function/private/workgroup arrays get min(uint(i), n-1)",
    ["C15|hlsl|*|F15acc/read/storage-*|wrong-result", "C15|hlsl|*|F15acc/write/storage-*|wrong-result", "C15|hlsl|*|F15acc/read/atomic-load/*|wrong-result", "C15|hlsl|*|F15acc/write/atomic-add/*|wrong-result",
-    "C15|hlsl|*|F15acc/read/uniform-*|trap:oob-read", "C15|hlsl|*|F15acc/read/uniform-*|wrong-result"])
+    "C15|hlsl|*|F15acc/read/uniform-*|trap:oob-read", "C15|hlsl|*|F15acc/read/uniform-*|wrong-result",
+    "C15|hlsl|*|F15idx/*/storage/*|wrong-result", "C15|hlsl|*|F15idx/read/uniform/*|trap:oob-read", "C15|hlsl|*|F15idx/read/uniform/*|wrong-result"])
 kf("C15", "C15-hlsl-private-array-declaration", "private arrays are declared `static uint[4] pa` (dimension after the type): not HLSL (same defect as C07-hlsl-private-array-declaration)",
    ["C15|hlsl|*|F15*|malformed-output:array dimension after type name*"])
 kf("C15", "C15-hlsl-matrix-helper-on-unemitted-struct", "a storage-only struct with a matCx2 member and a runtime-array tail is not declared in the HLSL text, but the GetMat/SetMat helper functions taking it by value are emitted: unknown type",
    ["C15|hlsl|*|F15acc/*/storage-matrix-column/*|malformed-output:unknown type \"S\""])
 kf("C15", "C15-msl-rzsw-value-array-unchecked", "under ReadZeroSkipWrite a dynamically indexed let-bound array or vector value (`va.inner[i]`, `vv[i]`) is emitted without any bounds check",
-   ["C15|msl|index+buffer=read-zero-skip-write(default)|F15acc/read/value-array/*|trap:oob-read", "C15|msl|index+buffer=read-zero-skip-write(default)|F15acc/read/value-vector/*|trap:oob-read"])
+   ["C15|msl|index+buffer=read-zero-skip-write(default)|F15acc/read/value-array/*|trap:oob-read", "C15|msl|index+buffer=read-zero-skip-write(default)|F15acc/read/value-vector/*|trap:oob-read",
+    "C15|msl|index+buffer=read-zero-skip-write(default)|F15idx/read/value/*|trap:oob-read"])
 
 # ---------------------------------------------------------------- C16 (identifiers)
 kf("C16", "C16-glsl-gl-prefix", "a user identifier beginning with gl_ is emitted as gl_<name>_ (only a suffix is appended): GLSL reserves every identifier with the gl_ prefix",
@@ -273,9 +281,12 @@ def _mirror():
 _mirror()
 
 kf("C03", "C03-private-array-declaration", "private arrays are declared `static uint[4] pa` (dimension after the type): not HLSL (same defect as C07-hlsl-private-array-declaration)",
-   ["C03|F4acc/*/private-array|*|malformed-output:array dimension after type name*"])
+   ["C03|F4acc/*/private-array|*|malformed-output:array dimension after type name*", "C03|F4idx/*/private/array<*|*|malformed-output:array dimension after type name*"])
 kf("C03", "C03-matrix-helper-on-unemitted-struct", "a storage-only struct with a matCx2 member and a runtime-array tail is not declared in the HLSL text, but GetMat/SetMat helpers taking it by value are emitted (same defect as C15-hlsl-matrix-helper-on-unemitted-struct)",
    ["C03|F4acc/*/storage-matrix-column|*|malformed-output:unknown type \"S\""])
+
+kf("C05", "C05-uniform-matCx2-dynamic-column", "a matCx2 directly in a uniform block is laid out std140 (column stride 16) while WGSL uses stride 8: dynamic column reads address the wrong bytes / beyond the buffer (same defect as C07-glsl-std140-matCx2)",
+   ["C05|F4idx/*/uniform/mat2x2<f32>|*|*", "C05|F4idx/*/uniform/mat3x2<f32>|*|*", "C05|F4idx/*/uniform/mat4x2<f32>|*|*"])
 
 kf("C14", "C14-override-sized-workgroup-array", "ir.ProcessOverrides leaves the size of `var<workgroup> w: array<u32, X>` unresolved (no constant size in the resolved module) for every way of supplying X",
    ["C14|sizes|*|array-size"])
